@@ -165,6 +165,8 @@ def handleTokens (inp : List String) (obs : String) : Verdict :=
     | _, _, _, _ => bad "nc"
   | _ => bad "unknown-op"
 
+def ops : List String := ["b", "bl", "av", "na", "np", "nc"]
+
 def handle (line : String) : String :=
   let (inp, obs) := splitCase line
   (handleTokens (tokens inp) obs).render
